@@ -1,17 +1,26 @@
 #!/usr/bin/env python3
-"""Prints the DESIGN.md section 11 table from /verif/seeded/*/meta.json."""
-import json, glob, os
+"""Prints the DESIGN.md section 11 table from /verif/seeded/*/meta.json (compact form)."""
+import json, glob
 rows = []
+n = caught_own = caught_any = 0
 for f in sorted(glob.glob('/verif/seeded/*/meta.json')):
     m = json.load(open(f))
-    name = m['seed']
+    if not m.get('kept'):
+        continue
+    n += 1
     caught = []
     for c, r in m.get('checks', {}).items():
         for tier, t in r.items():
             if t.get('exit') == 1:
-                caught.append("%s %s: %s" % (c, tier, ", ".join(t['violated_asserts'][:3])))
-    status = "kept" if m.get('kept') else "rejected (%s)" % ", ".join(k for k, v in m.get('confirmed', {}).items() if v is False)
-    rows.append("| `%s` | %s | %s | %s | %s |" % (name, m['breaks_property'], m['needs_to_manifest'], status, "; ".join(caught) if caught else ("**not caught** by " + ", ".join(m.get('checks', {}).keys()) if m.get('checks') else "-")))
-print("| seeded change | property | needs, to manifest | status | caught by (tier: assertions) |")
-print("|---|---|---|---|---|")
+                caught.append("%s (%s)" % (c, ", ".join(a.split('.', 1)[-1] for a in t['violated_asserts'][:2])))
+    own = any(c.startswith(m['breaks_property']) for c in caught)
+    caught_own += own
+    caught_any += bool(caught)
+    needs = m['needs_to_manifest'].replace('Needs ', '').replace('|', '/')
+    if len(needs) > 150:
+        needs = needs[:147] + '...'
+    rows.append("| `%s` | %s | %s |" % (m['seed'], needs, "; ".join(caught) if caught else "**not caught**"))
+print("%d kept changes; %d caught by the check of the property they break, %d by some check (quick tier).\n" % (n, caught_own, caught_any))
+print("| seeded change | needs, to manifest | caught by (first assertions) |")
+print("|---|---|---|")
 print("\n".join(rows))
